@@ -863,6 +863,7 @@ func Run(cfg hx.Config) error {
 	// 5c. CheckResponse, Digest texts and Scan, detectCompression on short slices
 	if !r.Stop() {
 		miscOps(r, g)
+		layerInitOps(r, g, root)
 	}
 
 	// 6. the same through a loopback HTTP server (real net/http transport)
